@@ -3,7 +3,7 @@
    [spec_accepts calls] = the independent specification automaton (Model/Builder.v, bottom):
    it sees only the KINDS of the calls and decides complete / incomplete / contradictory. *)
 From Coq Require Import List Bool NArith.
-From PTA Require Import Names Graph Search Rule SpecRule Builder Layer Diagram Scan Sx Puml NamesProofs SearchProofs RuleProofs AlgebraProofs ExpansionProofs BuilderProofs LayerBuilderProofs.
+From PTA Require Import Names Graph Search Rule SpecRule Builder Layer Diagram Scan Sx Puml NamesProofs SearchProofs RuleProofs AlgebraProofs ExpansionProofs BuilderProofs LayerBuilderProofs ClassProofs.
 Import ListNotations.
 
 Section C13.
@@ -26,6 +26,13 @@ Theorem C13_unknown_name : forall g v imp exc Ss Os f,
   In f (plain Ss ++ plain Os) -> exists_f ceqb g f = false ->
   is_verdict (AlgebraProofs.V ceqb rmatch g (mk_ucfg v imp exc Ss Os)) = false.
 Proof. exact (unknown_name_is_error ceqb ceqb_spec rmatch). Qed.
+
+(* ... and conversely: with name / sub-modules-of filters an error arises ONLY from an absent module *)
+Theorem C13_error_iff_missing : forall g v imp exc (ss os : list (@filt comp)),
+  ss <> [] -> os <> [] ->
+  (is_verdict (AlgebraProofs.V ceqb rmatch g (mk_ucfg v imp exc (map (@to_u comp) ss) (map (@to_u comp) os))) = false <->
+   exists f, In f (ss ++ os) /\ exists_f ceqb g f = false).
+Proof. exact (error_iff_missing ceqb ceqb_spec rmatch). Qed.
 
 (* a regex matching nothing: never a verdict (subject position; object position: C11_no_match_object) *)
 Theorem C13_no_match : forall g v imp exc p Os,
@@ -79,6 +86,7 @@ Qed.
 Print Assumptions C13_rule_history.
 Print Assumptions C13_rule_incomplete_is_error.
 Print Assumptions C13_unknown_name.
+Print Assumptions C13_error_iff_missing.
 Print Assumptions C13_no_match.
 Print Assumptions C13_layer_history.
 Print Assumptions C13_layer_undefined.
